@@ -1,4 +1,4 @@
-//@ unit u8_batch props C13
+//@ unit u8_batch props C13 also C14
 // Unit U8: the transaction protocol of the batch writer (src/database/sqlite_database.rs::process_batch_write).
 // A ghost transaction state is woven at the BEGIN / ROLLBACK / COMMIT statements; every exit of the function is an
 // obligation "no transaction is left open", and COMMIT is reached only after the daily-log marks were written.
@@ -159,11 +159,11 @@ pub struct Txn { pub open: bool, pub marks_written: bool, pub commits: nat, pub 
 //@ insert-each after-stmt "conn.execute(\"ROLLBACK\", [])"
                         proof { txn = Txn { open: false, rollbacks: txn.rollbacks + 1, ..txn }; }
 //@ insert-each before-stmt "return Err(e);"
-                        // [no_open_transaction_on_error_return] every error return happens after the transaction was rolled back
+                        // [no_open_transaction_on_error_return]{C13,C14} every error return happens after the transaction was rolled back
                         assert(!txn.open && txn.commits == 0);
 //@ insert-each before-stmt "?;" when-try unless "ROLLBACK"
         proof {
-        // [no_exit_with_open_transaction] a statement that can fail and return (`?`) is never executed while the transaction is open: the failure path would leave it open and every later batch would fail at BEGIN
+        // [no_exit_with_open_transaction]{C13,C14} a statement that can fail and return (`?`) is never executed while the transaction is open: the failure path would leave it open and every later batch would fail at BEGIN
         if nondet(1) { assert(!txn.open); }
         }
 //@ insert after-stmt "daily_log.write(conn)"
